@@ -124,6 +124,39 @@ def make_text(rng, T):
     return text + gen.gen_ws(rng, 0, 1)
 
 
+def enc_triple(le, t):
+    tok, s, p = t
+    if isinstance(tok, le.BaseSymbol):
+        ty = [0, enc_atom(tok)]
+    else:
+        ty = [{le.TOKEN_AND: 1, le.TOKEN_OR: 2, le.TOKEN_LPAR: 3, le.TOKEN_RPAR: 4}[tok]]
+    return [ty, enc_str(s), p]
+
+
+def interleaved(le, A, B):
+    """Two Licensing.tokenize() generators drawn from alternately (A first): each must yield what it yields when drawn
+    alone. A and B are (Licensing, text, simple); both texts tokenize without error when alone. Returns error text or None."""
+    alone = [[enc_triple(le, t) for t in L.tokenize(text, simple=simple)] for L, text, simple in (A, B)]
+    gens = [iter(L.tokenize(text, simple=simple)) for L, text, simple in (A, B)]
+    got = [[], []]
+    live = [True, True]
+    try:
+        while any(live):
+            for k in (0, 1):
+                if live[k]:
+                    try:
+                        got[k].append(enc_triple(le, next(gens[k])))
+                    except StopIteration:
+                        live[k] = False
+    except Exception as ex:   # noqa
+        return 'two token streams drawn alternately: %s: %s' % (type(ex).__name__, ex)
+    for k in (0, 1):
+        if got[k] != alone[k]:
+            return ('two token streams drawn alternately: the stream of %r yields %r, alone it yields %r'
+                    % ((A, B)[k][1], [dec_str(x[1]) for x in got[k]], [dec_str(x[1]) for x in alone[k]]))
+    return None
+
+
 def run(rep, tier, seed):
     le = imp()
     rng = random.Random(seed)
@@ -231,6 +264,7 @@ def run(rep, tier, seed):
         metas.append((T, L, text, simple))
     res = run_model(reqs)
     rep.trail = []      # (table, text) of every case so far: other Licensing objects are the only shared context
+    prev = None
     for i, (T, L, text, simple) in enumerate(metas):
         rep.trail.append({'table': T, 'text': text, 'simple': simple})
         err, what = account(L, T, text, simple)
@@ -257,6 +291,16 @@ def run(rep, tier, seed):
                                               position=e.position, error_code=e.error_code)
         gt = outcome_of(tokenize)
         gp = parsing.parse_outcome(L, text, simple=simple)
+        # the token stream of this text and the one of the previous text (of this or another Licensing), drawn alternately
+        if gt[0] == 0 and prev is not None and i % 3 == 0:
+            rep.count('interleaved_stream_pairs')
+            e2 = interleaved(le, (L, text, simple), prev[1:])
+            if e2:
+                rep.violations.append({'key': 'streams', 'kind': 'streams', 'table': T, 'text': text, 'simple': simple, 'what': e2,
+                                       'table2': prev[0], 'text2': prev[2], 'simple2': prev[3]})
+                prev = None
+                continue
+        prev = (T, L, text, simple) if gt[0] == 0 else prev
         rep.compared += 2
         if (res[2 * i] != gt or res[2 * i + 1] != gp) and len(rep.broken) < 5:
             rep.broken.append('correspondence C01: table %r text %r simple=%r model (%r, %r) implementation (%r, %r)'
@@ -267,5 +311,10 @@ def replay(payload):
     T = [tuple(x) for x in payload['table']]
     T = [(k, a, e) for k, a, e in T]
     L = make_licensing(T)
+    if payload.get('kind') == 'streams':
+        T2 = [(k, a, e) for k, a, e in payload['table2']]
+        L2 = L if T2 == T else make_licensing(T2)
+        err = interleaved(imp(), (L, payload['text'], payload.get('simple', False)), (L2, payload['text2'], payload.get('simple2', False)))
+        return err is None, err or 'each stream yields what it yields alone'
     err, what = account(L, T, payload['text'], payload.get('simple', False))
     return err is None, err or ('every word accounted for (%s)' % what)
